@@ -38,6 +38,10 @@ def cases(shard, tier):
             for L in wl.window(max(cap, 12)):
                 for cn in ('E3', 'I0', 'I1'):
                     yield {'k': 'wl', 'vrl': vrl, 'recs': [[cn, L, L % 5]], 'ocs': 2 ** 16}
+            # several records with a small output buffer (flushed between records)
+            for L in (1, 11, cap - 1, cap + 1, 3 * cap + 5):
+                yield {'k': 'wl', 'vrl': vrl, 'recs': [['I1', L, 1], ['E3', L + 1, 2], ['I0', max(L - 1, 1), 3]], 'ocs': vrl}
+                yield {'k': 'wl', 'vrl': vrl, 'recs': [['I1', L, 1], ['E3', L + 1, 2], ['I0', max(L - 1, 1), 3]], 'ocs': vrl + 2}
     elif shard['kind'] == 'min':
         for vrl in shard['vrls']:
             yield {'k': 'min', 'vrl': vrl}
@@ -109,6 +113,9 @@ def run_case(case):
             'ok:multi-segment' if L > case['vrl'] - 8 else 'ok:single-segment'
         return Outcome(cls, viol, True, digest=wl.digest_of(res))
     sp = make_spec(case)
+    # alternate between a large output buffer and the smallest accepted one (a flush after nearly every record)
+    if (case.get('width', 0) + case.get('n', 0) + case['vrl']) % 4 == 2 or case['k'] == 'min':
+        sp['write'] = dict(sp.get('write') or {}, output_chunk_size=case['vrl'])
     res = S.run_spec(sp)
     if res['failed_at'] is not None:
         viol.append((f"C15:e2e:{case['k']}:build-raised", f"{res['status'][-1]} | {case}"))
